@@ -78,7 +78,7 @@ Proof. intros H. destruct f; [exact I|]. cbn [p_collect]. rewrite H. repeat len_
 Definition expr_tot_stmt (fuel : nat) : Prop :=
   (forall d pr ts, 8 * List.length ts + 1 < fuel -> NF (p_expr fuel d pr ts)) /\
   (forall d ts, 8 * List.length ts + 0 < fuel -> NF (p_primary fuel d ts)) /\
-  (forall d pr e ts, 8 * List.length ts + 1 < fuel -> NF (p_loop fuel d pr e ts)) /\
+  (forall d c pr e ts, 8 * List.length ts + 1 < fuel -> NF (p_loop fuel d c pr e ts)) /\
   (forall d o rp ts, 8 * List.length ts + 0 < fuel -> NF (p_collect fuel d o rp ts)) /\
   (forall d ts, 8 * List.length ts + 3 < fuel -> NF (p_args fuel d ts)) /\
   (forall d ts, 8 * List.length ts + 2 < fuel -> NF (p_args1 fuel d ts)).
@@ -92,8 +92,8 @@ Proof.
     all: try (destruct (is_cast r)). all: repeat tot_step.
   - cbn [p_loop]. destruct ts as [|t r]; [discriminate|].
     destruct (bin_of t) as [[[o lv] rp]|].
-    + destruct (pr <=? lv); [|discriminate]. repeat tot_step.
-    + destruct (nary_of t) as [[[o lv] rp]|] eqn:En; [|discriminate]. destruct (pr <=? lv); [|discriminate].
+    + destruct (pr <=? lv); [|discriminate]. destruct c; [discriminate|]. repeat tot_step.
+    + destruct (nary_of t) as [[[o lv] rp]|] eqn:En; [|discriminate]. destruct (pr <=? lv); [|discriminate]. destruct c; [discriminate|].
       pose proof (p_collect_lt f d o rp t r (nary_is_nop _ _ _ _ En)) as L.
       assert (N : NF (p_collect f d o rp (t :: r))) by (eauto with ptot).
       destruct (p_collect f d o rp (t :: r)) eqn:E; cbn [bind len_ok] in *; [|discriminate|congruence]. repeat tot_step.
